@@ -297,6 +297,7 @@ func init() {
 	reg(rtPkg+"Ite", func(ex *Exec, a []Val) Val {
 		return BigV{T: ex.tf.Ite(a[0].(*Term), ex.bigArg(a[1], "Ite"), ex.bigArg(a[2], "Ite"))}
 	})
+	reg(rtPkg+"IteI64", func(ex *Exec, a []Val) Val { return ex.tf.Ite(a[0].(*Term), a[1].(*Term), a[2].(*Term)) })
 	reg(rtPkg+"IteDec", func(ex *Exec, a []Val) Val {
 		return DecV{T: ex.tf.Ite(a[0].(*Term), ex.decArg(a[1], "IteDec"), ex.decArg(a[2], "IteDec"))}
 	})
